@@ -19,13 +19,19 @@ def build(tagging, container, governor, govmode='req'):
     from pyasn1.type import univ, namedtype, opentype, tag, char
     inner_seq = univ.Sequence(componentType=namedtype.NamedTypes(
         namedtype.NamedType('x', univ.Integer()), namedtype.OptionalNamedType('y', univ.OctetString())))
+    # inner types that carry, of all tags, the one of the ANY field itself ([3]): still inner values, to be wrapped
+    same_tag_str = univ.OctetString().subtype(implicitTag=tag.Tag(tag.tagClassContext, tag.tagFormatSimple, 3))
+    same_tag_of = univ.SequenceOf(componentType=univ.Integer()).subtype(
+        implicitTag=tag.Tag(tag.tagClassContext, tag.tagFormatConstructed, 3))
     if governor == 'int':
-        keys = {1: univ.Integer(), 2: univ.OctetString(), 3: inner_seq, 4: univ.SequenceOf(componentType=univ.Boolean())}
+        keys = {1: univ.Integer(), 2: univ.OctetString(), 3: inner_seq, 4: univ.SequenceOf(componentType=univ.Boolean()),
+                5: same_tag_str, 6: same_tag_of}
         gov = univ.Integer()
     else:
         keys = {univ.ObjectIdentifier('1.3.1'): univ.Integer(), univ.ObjectIdentifier('1.3.2'): univ.OctetString(),
                 univ.ObjectIdentifier('1.3.3'): inner_seq,
-                univ.ObjectIdentifier('1.3.4'): univ.SequenceOf(componentType=univ.Boolean())}
+                univ.ObjectIdentifier('1.3.4'): univ.SequenceOf(componentType=univ.Boolean()),
+                univ.ObjectIdentifier('1.3.5'): same_tag_str, univ.ObjectIdentifier('1.3.6'): same_tag_of}
         gov = univ.ObjectIdentifier()
     ot = opentype.OpenType('id', keys)
     any_ = univ.Any()
@@ -57,7 +63,10 @@ def inner_values(keys, inner_seq):
     seq['y'] = b'in'
     so = keys[ks[3]].clone()
     so.extend([True, False])
-    return [(ks[0], univ.Integer(12)), (ks[1], univ.OctetString('quick brown')), (ks[2], seq), (ks[3], so)]
+    so2 = keys[ks[5]].clone()
+    so2.extend([1, 2])
+    return [(ks[0], univ.Integer(12)), (ks[1], univ.OctetString('quick brown')), (ks[2], seq), (ks[3], so),
+            (ks[4], keys[ks[4]].clone(b'ab')), (ks[5], so2)]
 
 
 def run(tier):
